@@ -117,14 +117,14 @@ type World struct {
 	// OnQuiescent runs invariants after every settle+route.
 	OnQuiescent func()
 
-	Viol      *Violation
-	Probes    map[string]int
-	FaultsHit map[string]int
-	States    map[string]bool
-	Steps     int // yield-level scheduler steps
-	Events    int // driver-level events applied
-	MaxSteps  int
-	Budget    bool // step budget exhausted
+	Viol       *Violation
+	Probes     map[string]int
+	FaultsHit  map[string]int
+	States     map[string]bool
+	Steps      int // yield-level scheduler steps
+	Events     int // driver-level events applied
+	MaxSteps   int
+	Budget     bool // step budget exhausted
 	HarnessErr string
 
 	// RawT disables transaction-id translation (C07 wants the real ids).
@@ -498,20 +498,20 @@ type inPkt struct {
 }
 
 type Write struct {
-	Conn    *SimConn
-	To      *net.UDPAddr
-	ToStr   string
-	B       []byte
-	At      time.Time
-	Idx     int // index among this conn's writes
-	D       benc.Dict
-	DecErr  error
-	key     string
-	RealT   string // the id the server really used (B and D carry the canonical one)
-	Parked  bool // WriteTo has not returned yet (released by World.ReleaseWrite)
-	parkCh  chan struct{}
-	Failed  bool // the write returned an error (fault)
-	Short   bool
+	Conn   *SimConn
+	To     *net.UDPAddr
+	ToStr  string
+	B      []byte
+	At     time.Time
+	Idx    int // index among this conn's writes
+	D      benc.Dict
+	DecErr error
+	key    string
+	RealT  string // the id the server really used (B and D carry the canonical one)
+	Parked bool   // WriteTo has not returned yet (released by World.ReleaseWrite)
+	parkCh chan struct{}
+	Failed bool // the write returned an error (fault)
+	Short  bool
 }
 
 // WriteFault decides the fate of the i-th write on a conn.
@@ -536,7 +536,7 @@ type SimConn struct {
 	IsClosed         bool
 	ClosedAt         time.Time
 	// All successful writes, kept for history oracles.
-	History []*Write
+	History     []*Write
 	KeepHistory bool
 }
 
